@@ -88,10 +88,16 @@ func (filter *SearchableQueryFilter) ChangeSearchableOperator(expr *pg_query.A_E
 	// ~~* - ILike
 	case "=", "~~", "~~*":
 		expr.Name[0].GetString_().Sval = "="
+		if expr.Kind == pg_query.A_Expr_Kind_AEXPR_LIKE || expr.Kind == pg_query.A_Expr_Kind_AEXPR_ILIKE {
+			expr.Kind = pg_query.A_Expr_Kind_AEXPR_OP
+		}
 	// !~~ - NOT Like
 	// !~~* - NOT ILike
 	case "<>", "!~~", "!~~*":
 		expr.Name[0].GetString_().Sval = "<>"
+		if expr.Kind == pg_query.A_Expr_Kind_AEXPR_LIKE || expr.Kind == pg_query.A_Expr_Kind_AEXPR_ILIKE {
+			expr.Kind = pg_query.A_Expr_Kind_AEXPR_OP
+		}
 	}
 }
 
